@@ -7,4 +7,5 @@ CONSTANTS
   PoolSize = 3
   Variants = {0, 1, 2, 3, 4}
 INVARIANT InvUpdateTouchesOnlyProps
+INVARIANT InvModelAdmitted
 CHECK_DEADLOCK FALSE
